@@ -347,6 +347,15 @@ def replay(c, hb):
             rows, x = run_stream(c, hb, "c12-ir", **args)
         elif stream in ("c12-pinned", "c12-labpinned", "c12-hang"):
             rows, x = run_stream(c, hb, stream, **args)
+        # ---- BEGIN front-end → emitted-schema tie (owner: c01-front builder) ----
+        elif stream == "c01-front" and rp.get("replay_args"):
+            from verifkit import front_emit
+            st, bad, _, err = front_emit.run(c, **rp["replay_args"])
+            print(err or dict(st))
+            for b in [b for bs in bad.values() for b in bs if b["document"] == rp.get("document")][:2]:
+                c.violation(b)
+            rows = []
+        # ---- END front-end → emitted-schema tie ----
         else:
             print("nothing to re-run for this replay file (obligation / correspondence record)")
             sys.exit(1)
@@ -375,11 +384,13 @@ def front_emit_tie(c):
     if err is not None:
         return
     g = lambda k: st.get(k, 0)
-    for kind in ("instance", "emitted-verdict", "forward", "backward"):
+    for kind in ("instance", "respects", "emitted-verdict", "forward", "backward"):
         for b in bad.get(kind, [])[:2]:
             c.violation(b)
     c.oblige("C12_jsonschema_source_validates_emitted_partial: instances on the REAL front-end IR hold (%d/%d documents with every hypothesis)" % (g("concl"), g("inst")),
              g("concl") == g("inst") and g("inst") >= 100 and g("bad_replies") == 0)
+    c.oblige("FragJS: documents strictly valid against the SOURCE schema respect the constraints / constants / enumerations of the REAL front-end IR after the Go chain (`satLax`: `sat` modulo null and any; %d/%d)" % (g("source_valid_respects_ir"), g("source_valid_strict")),
+             g("source_valid_respects_ir") == g("source_valid_strict") and g("source_valid_strict") >= 100)
     c.oblige("model verdict on the model-emitted schema = reference validator on the schema the REAL jenny emitted (%d/%d documents of fully modelled cases)" % (g("emitted_verdicts_agree"), g("emitted_verdicts")),
              g("emitted_verdicts_agree") == g("emitted_verdicts") and g("emitted_verdicts") >= 500)
     c.oblige("FragJS, real code: source-valid documents outside the known exclusions validate against the REAL emitted schema (%d/%d; %d source-valid documents excluded, %d of them rejected)"
